@@ -20,11 +20,13 @@ OUTSEQS = [
 
 
 def comp(name, stage=0, prods=(), repeat=False, agg=False, replicate=0, shutOn=(), restOn=("ResourceExhausted",),
-         maxR=None, outs=(1, 2), loop=False, cond=False):
+         maxR=None, outs=(1, 2), loop=False, cond=False, fname=None):
     """loop: the component belongs to the (single) DoWhile document of the shape; cond: it produces the loop's condition.
-    A looped component has one node per iteration (`<i>#<name>`), all but iteration 0 instantiated at run time."""
+    A looped component has one node per iteration (`<i>#<name>`), all but iteration 0 instantiated at run time.
+    fname: the name of the component in the workflow when it differs from `name` (`name` is unique within the shape, the
+    workflow's names only within a stage: `stage0.prep` and `stage1.prep` are different components)."""
     return dict(name=name, stage=stage, prods=list(prods), repeat=repeat, agg=agg, replicate=replicate,
-                shutOn=list(shutOn), restOn=list(restOn), maxR=maxR, outs=list(outs), loop=loop, cond=cond)
+                shutOn=list(shutOn), restOn=list(restOn), maxR=maxR, outs=list(outs), loop=loop, cond=cond, fname=fname or name)
 
 
 DW_ITERS = 3          # iteration slots per looped component (the environment answers "True" at most DW_ITERS - 1 times)
@@ -69,6 +71,17 @@ BASE_SHAPES = {
     # a task that fails next to a long-running sibling and the sibling's not yet staged consumer (what a postponed
     # finishedCheck still has to stop at wake-up: _stopComponents for the one, fake finish for the other)
     "sibs": [comp("a", outs=(4, 1)), comp("s", outs=(1,)), comp("t", prods=["s"], outs=(1,))],
+    # an observer with two subjects in its stage, one of which is staged late (it waits for a slow producer): the observer may
+    # only start when BOTH are staged; the two shapes list the subjects in the two possible reference orders
+    "obssub_a": [comp("slow", outs=(1,)), comp("sa", prods=["slow"], outs=(1,)), comp("sb", outs=(1,)),
+                 comp("o", prods=["sa", "sb"], repeat=True, outs=(1,))],
+    "obssub_b": [comp("slow", outs=(1,)), comp("sa", prods=["slow"], outs=(1,)), comp("sb", outs=(1,)),
+                 comp("o", prods=["sb", "sa"], repeat=True, outs=(1,))],
+    # producers with the same name in different stages consumed by one component (the later one finishes last)
+    "samename": [comp("prep0", fname="prep", outs=(1,)), comp("prep1", fname="prep", stage=1, outs=(1, 4)),
+                 comp("cons", stage=1, prods=["prep0", "prep1"], outs=(1,))],
+    "samename_b": [comp("prep0", fname="prep", outs=(1,)), comp("prep1", fname="prep", stage=1, outs=(1,)),
+                   comp("cons", stage=1, prods=["prep1", "prep0"], outs=(1,))],
     # DoWhile at run time: a loop (body, cond) fed by pre, consumed by post in the next stage; y runs next to the loop
     "dw1": [comp("pre", outs=(1,)), comp("body", prods=["pre"], loop=True, outs=(1, 4)),
             comp("cond", prods=["body"], loop=True, cond=True, shutOn=KI, outs=(1, 2)),
@@ -77,7 +90,8 @@ BASE_SHAPES = {
     "dw2": [comp("cond", loop=True, cond=True, outs=(1, 3, 4)), comp("s", outs=(1,)), comp("post", prods=["cond"], outs=(1,))],
 }
 
-QUICK = ["chain2", "chain2s", "chain3", "stages2", "fanin", "obs", "obs2", "obschain", "agg", "restart", "xfail", "aggfail"]
+QUICK = ["chain2", "chain2s", "chain3", "stages2", "fanin", "obs", "obs2", "obschain", "agg", "restart", "xfail", "aggfail",
+         "obssub_a", "obssub_b", "samename", "samename_b"]
 THOROUGH = QUICK + ["aggchain", "diamond"]
 # growth item G02 (external kill, restart from a later stage, sleep / wake-up, memoization)
 G02_QUICK = ["chain2", "stages2", "fanin", "obs", "obs2", "agg", "xfail", "aggfail", "restart", "stages3", "sibs"]
@@ -107,7 +121,8 @@ def expand(base):
             # one node per iteration; inside the loop a reference means the same iteration
             for it in range(DW_ITERS):
                 prods = ["%d#%s" % (it, p) if p in looped else p for p in c["prods"]]
-                nodes.append(dict(c, node="%d#%s" % (it, c["name"]), replica=None, prods=prods, repl=False, iter=it, base=c["name"]))
+                nodes.append(dict(c, node="%d#%s" % (it, c["name"]), rnode="%d#%s" % (it, c["fname"]), replica=None, prods=prods,
+                                  repl=False, iter=it, base=c["name"]))
             continue
         if any(p in looped for p in c["prods"]):
             # a consumer of a looped component depends on every instance of it and on every condition component
@@ -117,7 +132,7 @@ def expand(base):
                     prods += ["%d#%s" % (it, q) for it in range(DW_ITERS) for q in dict.fromkeys([p] + conds)]
                 else:
                     prods.append(p)
-            nodes.append(dict(c, node=c["name"], replica=None, prods=list(dict.fromkeys(prods)), repl=False, iter=0, base=None))
+            nodes.append(dict(c, node=c["name"], rnode=c["fname"], replica=None, prods=list(dict.fromkeys(prods)), repl=False, iter=0, base=None))
             continue
         n = count(c)
         for i in (range(n) if n else [None]):
@@ -130,7 +145,8 @@ def expand(base):
                     prods.append("%s%d" % (p, i))
                 else:
                     prods.append(p)
-            nodes.append(dict(c, node=c["name"] + ("" if i is None else str(i)), replica=i, prods=prods, repl=bool(n), iter=0, base=None))
+            sfx = "" if i is None else str(i)
+            nodes.append(dict(c, node=c["name"] + sfx, rnode=c["fname"] + sfx, replica=i, prods=prods, repl=bool(n), iter=0, base=None))
     return nodes
 
 
@@ -231,10 +247,16 @@ def dowhile_package(base):
     return {"components": comps}, doc
 
 
+def node_ref(n):
+    """The reference of a node (of expand()) in the real workflow graph."""
+    return "stage%d.%s" % (n["stage"], n.get("rnode", n["node"]))
+
+
 def flowir(base):
     comps = []
+    byname = {x["name"]: x for x in base}
     for c in base:
-        refs = ["stage%d.%s:ref" % (next(x for x in base if x["name"] == p)["stage"], p) for p in c["prods"]]
+        refs = ["stage%d.%s:ref" % (byname[p]["stage"], byname[p]["fname"]) for p in c["prods"]]
         wa = {"shutdownOn": list(c["shutOn"]), "restartHookOn": list(c["restOn"])}
         if c["maxR"] is not None:
             wa["maxRestarts"] = c["maxR"]
@@ -244,7 +266,7 @@ def flowir(base):
             wa["aggregate"] = True
         if c["replicate"]:
             wa["replicate"] = c["replicate"]
-        comps.append({"name": c["name"], "stage": c["stage"], "references": refs,
+        comps.append({"name": c["fname"], "stage": c["stage"], "references": refs,
                       "command": {"executable": "fake_executable", "arguments": " ".join(refs)},
                       "workflowAttributes": wa,
                       "resourceManager": {"config": {"backend": "simulator"}}})
